@@ -205,6 +205,22 @@ func firstLine(s string) string {
 	return s
 }
 
+// diffClass says which parts of the observable deviate from the sequential reference.
+func diffClass(got, want string) string {
+	g, w := strings.Split(got, " | "), strings.Split(want, " | ")
+	names := []string{"response", "service", "client"}
+	if len(g) != 3 || len(w) != 3 {
+		return "shape"
+	}
+	var parts []string
+	for i := range names {
+		if g[i] != w[i] {
+			parts = append(parts, names[i])
+		}
+	}
+	return strings.Join(parts, "+")
+}
+
 // class groups the labels of the menu into the request classes the pair coverage is about.
 func class(label string) string {
 	l := label
@@ -299,10 +315,13 @@ func serviceScenarios(design string, sp *spec.Spec, svc *spec.Service) []vrt.Sce
 			sc.Threads = append(sc.Threads, body(svc, op{m, req}, tag))
 			parts = append(parts, m.Name+":"+req.Label)
 			sig = append(sig, shapeOf(m)+":"+req.Label)
-			sc.Labels = append(sc.Labels, shapeOf(m)+":"+req.Label)
+			// signatures carry the request CLASS only (one root cause in a template shows in
+			// every shape: the shape is in the scenario name and in the description)
+			sc.Labels = append(sc.Labels, class(req.Label))
 		}
 		sc.Name = fmt.Sprintf("c20B/%s/%s %s", design, svc.Name, strings.Join(parts, " || "))
-		sc.SigName = "c20B " + strings.Join(sig, " || ")
+		sc.SigName = "c20B"
+		sc.DiffClass = diffClass
 		sc.Doc = "requests in flight on one mounted generated server: " + strings.Join(sig, " || ")
 		sc.Setup = func() any {
 			goa.VerifResetPatterns()
